@@ -53,6 +53,10 @@ theorem source_flag_ops :
       [("interpolate_occlusion_mc_cnn", []), ("interpolate_mismatch_mc_cnn", [["1", "max_path_length"]]),
        ("interpolate_mismatch_sgm", []), ("interpolate_occlusion_sgm", []),
        ("find_valid_neighbors", [["max_path_length"]])]
+    ∧ Generated.Interp.pathBounds =
+      [("interpolate_occlusion_mc_cnn", []), ("interpolate_mismatch_mc_cnn", ["max_path_length=max(nrow,ncol)"]),
+       ("interpolate_mismatch_sgm", []), ("interpolate_occlusion_sgm", []),
+       ("find_valid_neighbors", ["max_path_length=max(nrow,ncol)"])]
     ∧ Generated.Interp.passOrder =
       [("McCnnInterpolation", ["interpolate_occlusion_mc_cnn", "interpolate_mismatch_mc_cnn", "mask_border"]),
        ("SgmInterpolation", ["interpolate_mismatch_sgm", "interpolate_occlusion_sgm"])] := by decide
